@@ -50,6 +50,18 @@ theorem bind_ok {m : M α} {f : α → M β} {w w' : World} {a : α} {ev : List 
     (h : m w = ⟨.ok a, ev, w'⟩) : (m >>= f) w = ⟨(f a w').val, ev ++ (f a w').evs, (f a w').w⟩ := by
   rw [bind_apply, h]
 
+/-- inversion of a successful bind -/
+theorem bind_ok_inv {m : M α} {f : α → M β} {w : World} {b : β} (h : ((m >>= f) w).val = .ok b) :
+    ∃ a e w1, m w = ⟨.ok a, e, w1⟩ ∧ (f a w1).val = .ok b ∧
+      ((m >>= f) w).evs = e ++ (f a w1).evs ∧ ((m >>= f) w).w = (f a w1).w := by
+  rw [bind_apply] at h ⊢
+  cases hm : m w with
+  | mk v e w1 =>
+    rw [hm] at h
+    cases v with
+    | error ex => simp at h
+    | ok a => exact ⟨a, e, w1, rfl, h, rfl, rfl⟩
+
 theorem returns_bind {P : β → Prop} (m : M α) (f : α → M β) (h : ∀ a, Returns P (f a)) :
     Returns P (m >>= f) := by
   intro w b hb
